@@ -447,7 +447,18 @@ def gen_voronoi(rng, S):
         return (xll_a + csz_a * (k + 0.5), yll_a + csz_a * (nr - 1 - r + 0.5))
     for _ in range(npts):
         m = rng.random()
-        if m < 0.3:                       # coincident with a cell centre
+        if rng.random() < 0.25 and (cells or n):
+            # several points within half a cell of the same centre, at different distances from it
+            # (a search that stops at the first "close enough" point picks the wrong one)
+            if pts and rng.random() < 0.6:
+                px, py = rng.choice(pts)
+                kx = int((px - xll_a) // csz_a)
+                ky = int((py - yll_a) // csz_a)
+                cx, cy = xll_a + csz_a * (kx + 0.5), yll_a + csz_a * (ky + 0.5)
+            else:
+                cx, cy = ctr(rng.choice(cells) if cells else rng.randrange(n))
+            pts.append((cx + csz_a * rng.randint(-7, 7) / 16, cy + csz_a * rng.randint(-7, 7) / 16))
+        elif m < 0.3:                       # coincident with a cell centre
             pts.append(ctr(rng.randrange(n)))
         elif m < 0.45 and pts:            # coincident with an earlier point
             pts.append(rng.choice(pts))
